@@ -91,7 +91,14 @@ func (l *evLog) Signature() string {
 
 // Tail renders the last n events, for witnesses.
 func (l *evLog) Tail(n int) string {
-	evs := l.Snapshot()
+	all := l.Snapshot()
+	evs := all[:0:0]
+	for _, e := range all {
+		if (e.Point == "ws.writer.locked" && e.Arg == "ping") || (e.Point == "px.frame" && (strings.Contains(e.Arg, "op=9") || strings.Contains(e.Arg, "op=10"))) {
+			continue
+		}
+		evs = append(evs, e)
+	}
 	if len(evs) > n {
 		evs = evs[len(evs)-n:]
 	}
